@@ -153,7 +153,7 @@ func linesMain(args []string) {
 			hx.Die("bad input line: %v", err)
 		}
 		n++
-		out := map[string]interface{}{"ev": "line", "text": e.Text, "tag": e.Tag, "t1": "", "t2": "", "same": false, "err": ""}
+		out := map[string]interface{}{"ev": "line", "text": e.Text, "tag": e.Tag, "t1": "", "t2": "", "t1c": "", "same": false, "err": ""}
 		func() {
 			defer func() {
 				if p := recover(); p != nil {
@@ -197,6 +197,24 @@ func linesMain(args []string) {
 			}
 			out["t2"] = string(t2)
 			out["same"] = want == got
+			// compile first, then re-serialise the SAME record object
+			r3, err := c.DecodeLn(line)
+			if err != nil {
+				out["err"] = err.Error()
+				return
+			}
+			if mm, ok := r3.(dnsdata.MapMarshaler); ok {
+				if _, err := mm.MarshalMap(); err != nil {
+					out["err"] = "marshalmap: " + err.Error()
+					return
+				}
+			}
+			t1c, err := r3.(encoding.TextMarshaler).MarshalText()
+			if err != nil {
+				out["err"] = "marshal after compile: " + err.Error()
+				return
+			}
+			out["t1c"] = string(t1c)
 		}()
 		wr.Put(out)
 	})
